@@ -63,6 +63,23 @@ func (g *modGraph) funcValues(v ssa.Value, seen map[ssa.Value]bool) (fns []*ssa.
 			}
 			return
 		}
+	case *ssa.Call:
+		// the result of a module function that builds the function value (a predicate
+		// factory): what its returns hand back
+		if h := x.Call.StaticCallee(); h != nil && fnInModule(h) && len(h.Blocks) > 0 && h.Signature.Results().Len() == 1 {
+			n := 0
+			for _, b := range h.Blocks {
+				if ret, ok := b.Instrs[len(b.Instrs)-1].(*ssa.Return); ok {
+					n++
+					f, u := g.funcValues(ret.Results[0], seen)
+					fns = append(fns, f...)
+					unknown = unknown || u
+				}
+			}
+			if n > 0 {
+				return
+			}
+		}
 	}
 	return nil, true
 }
